@@ -183,7 +183,8 @@ pub enum VOp {
     Drain(B, B, usize, usize, bool),
     Splice(B, B, Vec<u32>, bool, usize),
     Retain(u32),
-    DrainFilter(u32, Option<usize>),
+    DrainFilter(u32, Option<usize>, bool),
+    DedupByAsym(u32),
     Dedup,
     DedupBy(u32),
     DedupByKey(u32),
@@ -229,7 +230,9 @@ impl VOp {
             VOp::Drain(..) => "drain",
             VOp::Splice(..) => "splice",
             VOp::Retain(..) => "retain",
-            VOp::DrainFilter(..) => "drain_filter",
+            VOp::DrainFilter(_, _, false) => "drain_filter",
+            VOp::DrainFilter(_, _, true) => "drain_filter-forget",
+            VOp::DedupByAsym(..) => "dedup_by-asymmetric",
             VOp::Dedup => "dedup",
             VOp::DedupBy(..) => "dedup_by",
             VOp::DedupByKey(..) => "dedup_by_key",
@@ -401,7 +404,7 @@ pub fn apply_b<'b, T: El>(b: &'b Bump, v: &mut BVec<'b, T>, op: &VOp, slices: &m
             });
             Res::Keys(seen)
         }
-        VOp::DrainFilter(m, take) => {
+        VOp::DrainFilter(m, take, forget) => {
             let m = *m;
             let mut out = Vec::new();
             {
@@ -423,8 +426,18 @@ pub fn apply_b<'b, T: El>(b: &'b Bump, v: &mut BVec<'b, T>, op: &VOp, slices: &m
                         }
                     }
                 }
+                if *forget {
+                    // a leaked DrainFilter: the vector must not expose moved-out or stale elements
+                    std::mem::forget(df);
+                }
             }
             Res::Keys(out)
+        }
+        VOp::DedupByAsym(m) => {
+            let m = *m;
+            // asymmetric in its arguments: `a` is the later element (the one that would be removed)
+            v.dedup_by(|a, b| a.key() % m == 0 && b.key() % m != 0);
+            Res::Unit
         }
         VOp::Dedup => {
             v.dedup();
@@ -669,10 +682,32 @@ pub fn apply_s<T: El>(v: &mut Vec<T>, op: &VOp) -> Res {
             });
             Res::Keys(seen)
         }
-        VOp::DrainFilter(m, take) => {
+        VOp::DrainFilter(m, take, forget) => {
             // reference semantics of drain_filter: every matching element is removed (the ones not
-            // consumed through the iterator are dropped when the iterator is dropped)
+            // consumed through the iterator are dropped when the iterator is dropped).  A *leaked*
+            // iterator leaves the vector empty: everything not yielded is leaked, nothing is
+            // dropped (the length is set to 0 up front as a leak-amplification guard).
             let m = *m;
+            if *forget {
+                let n = take.unwrap_or(usize::MAX);
+                let mut yielded = Vec::new();
+                let mut i = 0;
+                while i < v.len() && yielded.len() < n {
+                    if v[i].key() % m == 0 {
+                        yielded.push(v.remove(i));
+                    } else {
+                        i += 1;
+                    }
+                }
+                // leak the rest without running destructors
+                let old = std::mem::take(v);
+                let mut old = std::mem::ManuallyDrop::new(old);
+                unsafe {
+                    old.set_len(0);
+                    std::mem::ManuallyDrop::drop(&mut old);
+                }
+                return Res::Keys(yielded.iter().map(|x| x.key()).collect());
+            }
             let mut removed = Vec::new();
             let mut i = 0;
             while i < v.len() {
@@ -684,6 +719,11 @@ pub fn apply_s<T: El>(v: &mut Vec<T>, op: &VOp) -> Res {
             }
             let n = take.unwrap_or(usize::MAX).min(removed.len());
             Res::Keys(removed[..n].iter().map(|x| x.key()).collect())
+        }
+        VOp::DedupByAsym(m) => {
+            let m = *m;
+            v.dedup_by(|a, b| a.key() % m == 0 && b.key() % m != 0);
+            Res::Unit
         }
         VOp::Dedup => {
             v.dedup();
@@ -861,9 +901,19 @@ pub fn gen_op<T: El>(rng: &mut Rng, len: usize) -> VOp {
         31..=34 => VOp::Drain(gen_bound(rng, len), gen_bound(rng, len), rng.below(4), rng.below(3), rng.chance(1, 8)),
         35..=37 => VOp::Splice(gen_bound(rng, len), gen_bound(rng, len), gen_keys(rng, 7), rng.chance(1, 2), rng.below(4)),
         38..=39 => VOp::Retain(rng.range(1, 5) as u32),
-        40..=41 => VOp::DrainFilter(rng.range(1, 5) as u32, if rng.chance(1, 2) { None } else { Some(rng.below(4)) }),
+        40..=41 => {
+            let take = if rng.chance(1, 2) { None } else { Some(rng.below(4)) };
+            let forget = take.is_some() && rng.chance(1, 4);
+            VOp::DrainFilter(rng.range(1, 5) as u32, take, forget)
+        }
         42 => VOp::Dedup,
-        43 => VOp::DedupBy(rng.range(1, 4) as u32),
+        43 => {
+            if rng.chance(1, 2) {
+                VOp::DedupBy(rng.range(1, 4) as u32)
+            } else {
+                VOp::DedupByAsym(rng.range(2, 4) as u32)
+            }
+        }
         44 => VOp::DedupByKey(rng.range(1, 4) as u32),
         45 => VOp::Reserve(rng.below(200)),
         46 => VOp::ReserveExact(rng.below(100)),
